@@ -2,7 +2,7 @@
    [vm_compute] evaluation inside coqc run exactly the same function.
    A case is a list of numbers; the first is the case kind. *)
 From Coq Require Import NArith List Bool.
-From PDB Require Import Gen.Consts Model.IndexPage Model.Pipeline Model.Meta Model.Migrate Model.ValueTable Model.MultiTree Model.BTreeIter Model.BTreeCheck Model.Wal Model.WalCodec Model.StorageCheck Model.Lock.
+From PDB Require Import Gen.Consts Model.IndexPage Model.Pipeline Model.Meta Model.Migrate Model.ValueTable Model.MultiTree Model.BTreeIter Model.BTreeCheck Model.Wal Model.WalCodec Model.StorageCheck Model.Lock Model.Readers.
 Import ListNotations.
 Open Scope N_scope.
 
@@ -521,6 +521,28 @@ Definition run_c18 (l : list N) : list N :=
   | _ => err_marker
   end.
 
+(* ---- kind 5: the specification function of C05. 5 ncommits, per commit: nkv then nkv pairs k v; then nq and nq pairs tau k. Output: spec value per query ---- *)
+Fixpoint parse_kvs (n : nat) (l : list N) : list (N * N) * list N :=
+  match n, l with
+  | S n', k :: v :: r => let '(kvs, r') := parse_kvs n' r in ((k, v) :: kvs, r')
+  | _, _ => ([], l)
+  end.
+Fixpoint parse_commits (n : nat) (l : list N) : list (list (N * N)) * list N :=
+  match n, l with
+  | S n', nkv :: r => let '(c, r1) := parse_kvs (N.to_nat nkv) r in let '(cs, r2) := parse_commits n' r1 in (c :: cs, r2)
+  | _, _ => ([], l)
+  end.
+Definition run_c05 (l : list N) : list N :=
+  match l with
+  | nc :: rest =>
+      let '(cs, r) := parse_commits (N.to_nat nc) rest in
+      match r with
+      | nq :: qs => map (fun q => Readers.spec cs (N.to_nat (fst q)) (snd q)) (fst (parse_kvs (N.to_nat nq) qs))
+      | [] => err_marker
+      end
+  | _ => err_marker
+  end.
+
 Definition dispatch (l : list N) : list N :=
   match l with
   | 19 :: rest => run_c19 rest
@@ -529,6 +551,7 @@ Definition dispatch (l : list N) : list N :=
   | 9 :: rest => run_c09 rest
   | 13 :: rest => run_c13 rest
   | 14 :: rest => run_c14 rest
+  | 5 :: rest => run_c05 rest
   | 18 :: rest => run_c18 rest
   | 12 :: rest => run_c12 rest
   | 4 :: rest => run_c04_tree rest
